@@ -1904,6 +1904,14 @@ func (sc *serverConn) newWriterAndRequest(st *stream, f *MetaHeadersFrame) (*res
 	scheme := f.PseudoValue("scheme")
 	authority := f.PseudoValue("authority")
 
+	// The method ends up verbatim in the request line written to the
+	// backend: anything but a token (RFC 7230, section 3.1.1) would change
+	// what that line means there.
+	if method != "" && !validMethod(method) {
+		errMsg := fmt.Sprintf("invalid request(method %q)", method)
+		return nil, nil, StreamError{f.StreamID, ErrCodeProtocol, errMsg}
+	}
+
 	isConnect := method == "CONNECT"
 	if isConnect {
 		if path != "" || scheme != "" || authority == "" {
